@@ -54,6 +54,7 @@ class Rule:
         self.exceptions = []
         self.functions = set()
         self.notes = []
+        self.broken = None
 
     def ob(self, fn, what, ok=True):
         """Record one obligation (discharged unless ok is False)."""
@@ -76,11 +77,24 @@ class Ctx:
         self.tier = tier
         self.config = config
         self.rules = []
+        self.module_broken = []
 
     def rule(self, rid, template, desc, floor=0):
         r = Rule(rid, template, desc, floor)
         self.rules.append(r)
         return r
+
+    def guard(self, rule_fn, *a, **kw):
+        """run one rule; an AnalysisBroken inside it marks that rule (not the whole module) as undecided"""
+        n0 = len(self.rules)
+        try:
+            return rule_fn(self, *a, **kw)
+        except AnalysisBroken as e:
+            if len(self.rules) > n0:
+                self.rules[-1].broken = str(e)
+            else:
+                self.module_broken.append("%s: %s" % (getattr(rule_fn, "__name__", "rule"), e))
+            return None
 
     def fail(self, rule, fn, construct, line, msg, path=None, file=None):
         f = Finding(self.prop, rule.id, fn, construct, line, msg, path, file)
@@ -91,6 +105,23 @@ class Ctx:
         rule.obligations += 1
         if fn is not None:
             rule.functions.add(getattr(fn, "name", str(fn)))
+
+
+_KIND_RE = None
+
+
+def kind_of(construct):
+    """construct signature with program identifiers and numbers removed: what sort of report it is"""
+    import re
+    global _KIND_RE
+    if _KIND_RE is None:
+        _KIND_RE = re.compile(r"[A-Za-z0-9_]*(?:_|->|\.|\(|\)|\[|\]|&|\*|#|@)[A-Za-z0-9_>\-\.\(\)\[\]&\*#@,]*|\b\d+\b|,")
+    return " ".join(_KIND_RE.sub(" ", construct).split())
+
+
+# rules of these templates track values through assignments and calls themselves (typestate, lockset); their verdict on the
+# code as written stands and is not put to the normal forms
+SEMANTIC_TEMPLATES = {"T5", "T6", "T7"}
 
 
 def load_known():
@@ -120,15 +151,117 @@ def run_property(prop_id, module, tier="quick", configs=None, replay=None):
         if cfg == configs[0]:
             units = facts["n_units"]
             nfunctions = len(prog.functions)
-        ctx = Ctx(prop_id, prog, tier, cfg)
-        try:
-            module.run(ctx)
-        except AnalysisBroken as e:
-            broken.append("[%s] %s" % (cfg, e))
+
+        def run_view(program, label):
+            c = Ctx(prop_id, program, tier, cfg)
+            err = None
+            try:
+                module.run(c)
+            except AnalysisBroken as e:
+                err = str(e)
+            except Exception as e:  # a rule tripping over an unusual shape must not look like a pass
+                if label == "as written":
+                    raise
+                err = "internal error on the normal form: %r" % (e,)
+            for r in c.rules:
+                for fd in r.findings:
+                    fd.rule = r.id  # rules shared between properties are renamed by the borrowing module
+            done = list(c.rules)
+            incomplete = done.pop() if (err is not None and done) else None
+            return c, err, done, incomplete
+
+        if os.environ.get("VERIF_VIEW") == "norm":   # debugging aid: decide on the normal form only
+            from . import normalize as NZ
+            prog = Program(NZ.normalize(facts))
+        ctx, err, done, incomplete = run_view(prog, "as written")
+
+        def raw_ok(r):
+            return r in done and r.obligations >= r.floor and not r.broken
+        known_now = {(k["rule"], k["file"], k["function"], k["construct"]) for k in load_known()
+                     if k["property"] == prop_id and k.get("status", "known") == "known"}
+        suspicious = err is not None or ctx.module_broken or any(not raw_ok(r) for r in ctx.rules) or any(
+            (f.rule, f.file, f.function, f.construct) not in known_now for r in ctx.rules for f in r.findings)
+        final_rules = ctx.rules
+        if suspicious and os.environ.get("VERIF_NO_NORMALIZE") != "1":
+            # second opinion on the behaviour-preserving normal form (helpers inlined, temporaries propagated):
+            # report only what both views of the same program agree on
+            from . import normalize as NZ
+            views = []      # [(label, {rule id: rule}) ...] for every normal form on which the module ran
+            view_progs = {}
+            for label, kw in (("temporaries propagated", dict(do_inline=False)),
+                              ("helpers inlined", dict(do_copyprop=False)),
+                              ("helpers inlined and temporaries propagated", dict())):
+                try:
+                    nprog = Program(NZ.normalize(facts, **kw))
+                    view_progs[label] = nprog
+                    nctx, nerr, ndone, nincomplete = run_view(nprog, "normal form")
+                    views.append((label, {r.id: r for r in ndone if r.obligations >= r.floor and not r.broken},
+                                  [r.id for r in nctx.rules]))
+                except Exception as e:   # noqa: BLE001
+                    views.append((label, {}, []))
+            merged = []
+            order = [r.id for r in ctx.rules]
+            for _, _, ids in views:
+                for rid in ids:
+                    if rid not in order:
+                        order.append(rid)
+            rby = {r.id: r for r in ctx.rules}
+            rescued_err = True
+            for rid in order:
+                r = rby.get(rid)
+                alts = [(label, by[rid]) for label, by, _ in views if rid in by]
+                if r is not None and raw_ok(r):
+                    if r.findings and alts and r.template not in SEMANTIC_TEMPLATES:
+                        keep, dropped = [], 0
+                        for f in r.findings:
+                            confirmed = True
+                            for vi, (_, n) in enumerate(alts):
+                                vprog = view_progs.get(_)
+                                vf = vprog.fn(f.function, f.file) if vprog is not None and f.function != "?" else None
+                                if vf is not None and not vf.normalized:
+                                    continue        # this view shows the function exactly as written: nothing to add
+                                if (f.function, kind_of(f.construct)) not in {(g.function, kind_of(g.construct)) for g in n.findings}:
+                                    confirmed = False
+                            if confirmed or (f.rule, f.file, f.function, f.construct) in known_now:
+                                keep.append(f)
+                            else:
+                                dropped += 1
+                        if dropped:
+                            r.discharged += dropped
+                            r.notes.append("%d report(s) on the code as written were not confirmed on every behaviour-preserving "
+                                           "normal form (static helpers inlined / single-assignment temporaries propagated) and "
+                                           "are not raised" % dropped)
+                        r.findings = keep
+                    merged.append(r)
+                elif alts:
+                    # the rule could not be decided on the code as written: use the normal forms; a report must be in all of them
+                    label, n = alts[0]
+                    if len(alts) > 1:
+                        n.findings = [f for f in n.findings if all((f.function, kind_of(f.construct)) in
+                                                                  {(g.function, kind_of(g.construct)) for g in m.findings}
+                                                                  for _, m in alts[1:])]
+                    n.notes.append("decided on a normal form (%s): the rule's anchors are not all in the function as written"
+                                   % ", ".join(lb for lb, _ in alts))
+                    merged.append(n)
+                else:
+                    rescued_err = False
+                    if r is not None:
+                        merged.append(r)
+            nerr = None
+            final_rules = merged
+            if err is not None and not rescued_err:
+                broken.append("[%s] %s" % (cfg, err))
+            elif err is not None and nerr is not None:
+                broken.append("[%s] %s" % (cfg, err))
+        elif err is not None:
+            broken.append("[%s] %s" % (cfg, err))
+        ctx.rules = final_rules
+        for m in ctx.module_broken:
+            broken.append("[%s] %s" % (cfg, m))
         for r in ctx.rules:
-            for fd in r.findings:
-                fd.rule = r.id  # rules shared between properties are renamed by the borrowing module
-            if r.obligations < r.floor:
+            if r.broken:
+                broken.append("[%s] rule %s: %s" % (cfg, r.id, r.broken))
+            elif r.obligations < r.floor:
                 broken.append("[%s] rule %s matched %d instances, floor is %d (anchor vanished or matcher broken)"
                               % (cfg, r.id, r.obligations, r.floor))
         all_rules.append((cfg, ctx.rules))
